@@ -153,8 +153,8 @@ ToStringClauses(M, s, ic, pure, r, s2, outw) ==
    C19_quiet  |-> Quiet(r) ]]
 
 \* ---- relational clauses: compare the observation of a step with that of its twin ----
-\* obs == [ok, exc, insw, ordw, text]
-SameObs(x, y) == x.ok = y.ok /\ x.exc = y.exc /\ x.insw = y.insw /\ x.ordw = y.ordw /\ x.text = y.text
+\* obs == [ok, exc, insw, ordw, text, pat]
+SameObs(x, y) == x.ok = y.ok /\ x.exc = y.exc /\ x.insw = y.insw /\ x.ordw = y.ordw /\ x.text = y.text /\ x.pat = y.pat
 
 Failing(c) == {n \in DOMAIN c.holds : ~c.holds[n]}
 Exercised(c) == {n \in DOMAIN c.ante : c.ante[n]}
